@@ -421,6 +421,9 @@ func (c *Ctx) writeViolation(key, what string, replay any, nofail bool) {
 	h := sha256.Sum256(append([]byte(key), b...))
 	name := fmt.Sprintf("%s-%s.json", c.Prop, hex.EncodeToString(h[:6]))
 	dir := filepath.Join(Root, "replays")
+	if d := os.Getenv("VERIF_REPLAY_DIR"); d != "" {
+		dir = d
+	}
 	os.MkdirAll(dir, 0o755)
 	path := filepath.Join(dir, name)
 	os.WriteFile(path, b, 0o644)
@@ -486,8 +489,12 @@ func (c *Ctx) Finish(level string) int {
 		"violations":  c.violations,
 	}
 	b, _ := json.MarshalIndent(ev, "", " ")
-	os.MkdirAll(filepath.Join(Root, "evidence"), 0o755)
-	if err := os.WriteFile(filepath.Join(Root, "evidence", c.Prop+".json"), b, 0o644); err != nil {
+	evdir := filepath.Join(Root, "evidence")
+	if d := os.Getenv("VERIF_EVIDENCE_DIR"); d != "" {
+		evdir = d // seeded-change runs against a scratch tree must not overwrite the real evidence
+	}
+	os.MkdirAll(evdir, 0o755)
+	if err := os.WriteFile(filepath.Join(evdir, c.Prop+".json"), b, 0o644); err != nil {
 		fmt.Fprintf(os.Stderr, "kcheck: cannot write evidence: %v\n", err)
 		return 2
 	}
